@@ -104,6 +104,10 @@ class BaseClient:
             device = self.get_device(msg.device)
 
         if isinstance(msg, message.DelProperty):
+            if msg.name is None:
+                # no property named: the whole device is gone
+                self.devices.pop(msg.device, None)
+                return
             device = self.get_device(msg.device)
 
         if device:
